@@ -95,9 +95,10 @@ func (c *conn) Close() error {
 // Returns any error encountered while closing the stream.
 func (c *conn) terminate(err error) error {
 	c.cancel(err) // Cancel the server context
-	if tx := c.tx.Swap(chan txMsg(nil)); tx != nil && tx != chan txMsg(nil) {
-		close(tx.(chan txMsg))
-	}
+	// The tx channel is not closed: a concurrent send() may have loaded it already and
+	// would panic sending on a closed channel. The write loop and the senders all watch
+	// the connection context, which has just been canceled.
+	c.tx.Swap(chan txMsg(nil))
 	return c.stream.Close() // Close the connection
 }
 
